@@ -734,6 +734,7 @@ impl Wire {
     /// One round. Returns false when the fate source aborted.
     pub fn step(&mut self, fates: &mut dyn Fates) -> bool {
         self.round += 1;
+        self.diag.round = self.round;
         self.sh.clock.advance();
         let polls = self.exec.run_until_stalled();
         let mut out: Vec<Packet> = vec![];
